@@ -35,22 +35,23 @@ const (
 
 // walkStats says how far a walk got (used for the non-triviality count).
 type walkStats struct {
-	Opened     string // "reader", "sequential", "no"
-	Objects    int
-	Streams    int
-	StreamErrs int
-	Pages      int
-	PageOK     int
-	Fonts      int
-	FontFiles  int
-	Ops        int
-	Inline     int
-	Outline    int
-	Names      int
-	Malformed  int // calls that returned a MalformedFileError
-	OtherErr   int // calls that returned another error
-	MaxOut     int64       // the longest decoded stream
-	Viol       []violation `json:",omitempty"`
+	Opened         string // "reader", "sequential", "no"
+	Objects        int
+	Streams        int
+	StreamErrs     int
+	Pages          int
+	PageOK         int
+	Fonts          int
+	FontFiles      int
+	Ops            int
+	Inline         int
+	Outline        int
+	Names          int
+	Malformed      int         // calls that returned a MalformedFileError
+	OtherErr       int         // calls that returned another error
+	MaxOut         int64       // the longest decoded stream
+	MaxStreamAlloc int64       // the largest allocation during one stream decode
+	Viol           []violation `json:",omitempty"`
 }
 
 func (st *walkStats) note(err error) {
@@ -146,13 +147,32 @@ func walk(d []byte, mode pdf.ReaderErrorHandling, st *walkStats) {
 		switch o := o.(type) {
 		case *pdf.Stream:
 			st.Streams++
+			// the working memory of one decode is bounded by the documented
+			// per-stream budget (measured as cumulative allocation: an upper
+			// bound of the working memory)
+			var ms0, ms1 runtime.MemStats
+			runtime.ReadMemStats(&ms0)
+			checkAlloc := func() {
+				runtime.ReadMemStats(&ms1)
+				used := int64(ms1.TotalAlloc - ms0.TotalAlloc)
+				if used > st.MaxStreamAlloc {
+					st.MaxStreamAlloc = used
+				}
+				if lim := docStreamBudget(o.Length()) + streamAllocSlack; used > lim && len(st.Viol) < 3 {
+					st.Viol = append(st.Viol, violation{"stream-allocation-over-documented-budget",
+						fmt.Sprintf("object %s: %d bytes allocated while decoding a stream of %d raw bytes; documented budget %d (+ %d slack)",
+							ref, used, o.Length(), docStreamBudget(o.Length()), streamAllocSlack)})
+				}
+			}
 			rd, err := pdf.DecodeStream(r, nil, o)
 			if err != nil {
+				checkAlloc()
 				st.note(err)
 				st.StreamErrs++
 				continue
 			}
 			nOut, err := io.Copy(io.Discard, io.LimitReader(rd, maxDrainBytes))
+			checkAlloc()
 			if nOut > st.MaxOut {
 				st.MaxOut = nOut
 			}
